@@ -237,6 +237,41 @@ def _grow_rule(chk, prog):
         raise AnalysisBroken("only %d size computations found in the growth primitives" % found)
 
 
+def _tombstone_rule(chk, prog):
+    rule = "C04-TOMBSTONE"
+    chk.rule(rule, "a table slot's value becomes nil only in fresh-memory initialisers; removal writes the (nil key, false value) tombstone")
+    n = 0
+    for fn in prog.all_funcs():
+        if fn.tu.name not in ("table.c", "gc.c", "util.c", "wrap.c", "struct.c"):
+            continue
+        stores = [x for x in fn.nodes if x.k == "asg" and x.op == "=" and x.kids[0].k == "mem" and x.kids[0].rec == "JanetKV"]
+        for x in stores:
+            names = strip_casts(x.kids[1]).macro_names()
+            fld = x.kids[0].field
+            if fld == "value" and "janet_wrap_nil" in names:
+                n += 1
+                chk.instance(rule)
+                if "empty" in fn.name:
+                    chk.ok(rule, "%s initialises fresh slots" % fn.name)
+                else:
+                    chk.violation(rule, fn.tu.name, fn.name, "value=nil", x.loc,
+                                  "`%s` turns a slot into an empty one: lookups stop probing there, so keys that were "
+                                  "inserted behind it become unreachable" % x.text()[:60])
+            if fld == "key" and "janet_wrap_nil" in names and "empty" not in fn.name:
+                n += 1
+                chk.instance(rule)
+                base = strip_casts(x.kids[0].kids[0]).text()
+                paired = any(y.kids[0].field == "value" and strip_casts(y.kids[0].kids[0]).text() == base
+                             and "janet_wrap_false" in strip_casts(y.kids[1]).macro_names() for y in stores)
+                if paired:
+                    chk.ok(rule, "%s: removal writes the tombstone (nil, false)" % fn.name)
+                else:
+                    chk.violation(rule, fn.tu.name, fn.name, "key=nil", x.loc,
+                                  "a slot's key is cleared without writing the `false` tombstone value")
+    if n < 4:
+        raise AnalysisBroken("only %d slot clearing stores found" % n)
+
+
 def run(chk):
     prog = Program.load("default")
     cg = CallGraph(prog)
@@ -246,3 +281,4 @@ def run(chk):
     _find_rule(chk, prog)
     _owner_rule(chk, prog)
     _grow_rule(chk, prog)
+    _tombstone_rule(chk, prog)
